@@ -2,6 +2,7 @@
 
    input   bytes <mem|file> <init> <hexstream>     one raw client byte stream, then EOF
            net <mem|file> <init> <chunk,chunk..> <eof|idle|err>   scripted connection (pauses, endings)
+           tls <0|1> <init> <sess;sess..>  sess = <hex>:<hs>,..   connections to ONE server, real TLS client
 
    input   sess <mem|file> <init> <events>
      init    -  |  box;box;...      box = <namehex>:<srchex>.<srchex>...
@@ -280,6 +281,92 @@ let () =
                coq_cases := ("(" ^ (match fl' with Mem -> "Mem" | File -> "File") ^ ", " ^ coq_store st ^ ",\n   " ^
                              coq_list coq_event evs ^ ",\n   " ^ coq_list coq_reply rs ^ ",\n   " ^ coq_dump ds ^ ")") :: !coq_cases
          | _ -> ());
+        Mlutil.print_model model_outs verdict
+    | "tls", [en; init; sessions] ->
+        (* several connections to ONE server with STLS configured (or not); Coq's tsessions *)
+        let tc = { t_enabled = (en = "1"); t_force = false } in
+        let st0 = parse_init 0 init in
+        let conns = List.map (fun sess ->
+            if sess = "-" || sess = "" then [] else
+            List.map (fun step -> let (d, hs) = split2 step in (fstr d, hs = "1")) (String.split_on_char ',' sess))
+            (String.split_on_char ';' sessions) in
+        let tws = tsessions tc Mem st0 false O
+            (List.map (List.map (fun (d, hs) -> TChunk (d, hs))) conns) in
+        let capa_field r flag =
+          let f = field_of_reply r in
+          (match r.r_body with BCapa -> f ^ (if flag then "1" else "0") | _ -> f) in
+        let sess_outs tw = List.map2 capa_field tw.t_w.w_out tw.t_flags in
+        let last_store = (match List.rev tws with tw :: _ -> tw.t_w.w_store | [] -> st0) in
+        let names = box_names init "-" in
+        let model_outs =
+          String.split_on_char ' ' (String.concat " N " (List.map (fun tw -> String.concat " " (sess_outs tw)) tws)) @
+          List.map (fun nm -> field_of_dump nm (dump_box last_store (fstr nm))) names in
+        (* oracle: the C13 specification on what the implementation answered, connection by
+           connection, with the accepted STLS lines (and what was dropped behind them) taken out:
+           an upgrade must not change what the session shows or commits *)
+        let verdict =
+          match outs with
+          | "PANIC" :: _ -> "fail:server-panic"
+          | "WEDGED" :: _ | "WEDGED-AT-END" :: _ -> "fail:server-wedged"
+          | _ when List.exists (fun o -> String.length o > 4 && (String.sub o 0 5 = "EXTRA" || String.sub o 0 5 = "GARBA" || String.sub o 0 5 = "HANDS")) outs ->
+              "fail:tls-upgrade-protocol"
+          | _ ->
+              let rfs = List.filter (fun f -> f <> "" && f.[0] <> 'S') outs in
+              let dfs = List.filter (fun f -> f <> "" && f.[0] = 'S') outs in
+              let groups =
+                let rec go cur acc = function
+                  | [] -> List.rev (List.rev cur :: acc)
+                  | "N" :: t -> go [] (List.rev cur :: acc) t
+                  | f :: t -> go (f :: cur) acc t in
+                go [] [] rfs in
+              let ds = List.filter_map dump_of_field dfs in
+              if List.length groups <> List.length conns then "fail:reply-count"
+              else begin
+                let strip_capa f =
+                  let n = String.length f in
+                  if n >= 2 && (String.sub f (n - 2) 2 = "C1" || String.sub f (n - 2) 2 = "C0") then String.sub f 0 (n - 1) else f in
+                let nconn = List.length conns in
+                let rec check i st gs cs =
+                  match gs, cs with
+                  | g :: gs', steps :: cs' ->
+                      (match g with
+                       | [] -> "fail:reply-count"
+                       | greet :: toks ->
+                           (* walk the lines of the segments, pairing them with the reply tokens *)
+                           let evs = ref [] and rs = ref [] and toks = ref toks and stop = ref false and pend = ref [] in
+                           List.iter (fun (d, hs) ->
+                             if not !stop then begin
+                               let (ls, p) = feed (frev !pend) d in
+                               pend := p;
+                               let dropped = ref false in
+                               List.iter (fun l ->
+                                 if not !stop && not !dropped then
+                                   match !toks with
+                                   | [] -> stop := true
+                                   | t :: rest ->
+                                       toks := rest;
+                                       let is_stls = (match parse_line l with CCmd (STLS, _) -> true | _ -> false) in
+                                       if is_stls && String.length t > 0 && t.[0] = '+' then begin
+                                         dropped := true; pend := [];
+                                         (* without a proper handshake: "-ERR" in plaintext, the session is over *)
+                                         if not hs then (match !toks with "-/-/-" :: rest' -> toks := rest'; stop := true | _ -> stop := true)
+                                       end else begin
+                                         evs := ELine l :: !evs; rs := strip_capa t :: !rs
+                                       end) ls
+                             end) steps;
+                           if !toks <> [] then "fail:reply-count" else
+                           let parsed = List.map reply_of_field (greet :: List.rev !rs) in
+                           if List.mem None parsed then "fail:unparsable-reply" else
+                           let parsed = List.filter_map (fun x -> x) parsed in
+                           let evs = List.rev !evs in
+                           (match oracle Mem st evs parsed (if i = nconn - 1 then ds else []) with
+                            | Some why -> "fail:" ^ reason_text why
+                            | None ->
+                                let w = run Mem (init_world st) (evs @ [EEof]) in
+                                check (i + 1) w.w_store gs' cs'))
+                  | _, _ -> "ok" in
+                check 0 st0 groups conns
+              end in
         Mlutil.print_model model_outs verdict
     | "net", [fl; init; chunks; fin] ->
         (* a scripted connection: chunks with pauses between them, three endings; Coq's run_net *)
